@@ -196,3 +196,13 @@ func VerifC08LoaderBest() string {
 	}
 	return bsLoader.best.ID()
 }
+
+// VerifC08Dump of a snapshot handle (no Status needed).
+func (h *VerifC08Handle) VerifC08Dump() VerifC08Dump {
+	d := verifC08dump(h.ls)
+	d.Loaded = h.done
+	if h.best != nil {
+		d.Best = h.best.ID()
+	}
+	return d
+}
